@@ -361,6 +361,8 @@ def run_history(mon, base, hid, steps, names, sh, snapshots_out=None, src_mtime=
             st = abstract_state(v0, step["impl"])
             if st[0] != "absent":
                 sh.nontrivial.add((st, step["impl"], step["strategy"], step["migrate"]["action"], action, result_shape(step, action)))
+            if action == "error" and snapshots_out is not None:
+                snapshots_out.append(post)      # (what a failed call leaves is compared across processes too: unspecified is not "differs per process")
             if action == "error":
                 # the failing layer's disk state is unspecified: remove it so that later steps start from a defined state
                 layersim.restore(layers, [])
